@@ -1,4 +1,5 @@
-(* C18 — sparse vectors: NewSparse*Vector, round trip, reader safety (what holds and what does not). *)
+(* C18 — sparse vectors: NewSparse*Vector, the reader's validation (a328708), round trip, reader safety on
+   every document, no panic on any document. *)
 From Coq Require Import ZArith List Bool Lia Sorted.
 From ADV Require Import C18.Model C18.Spec C18.ProofsBase.
 Import ListNotations.
@@ -94,18 +95,90 @@ Proof.
     eapply Forall_forall in Hnn; eassumption.
 Qed.
 
-Lemma read_sv_safe d v :
-  read_sv F T nz parseJ d = Ok v ->
+Lemma read_sv_core_safe d v :
+  read_sv_core F T nz parseJ d = Ok v ->
   sv_n v = svd_length d /\ sorted (sv_ents v) /\ Forall (fun kv => fst kv < sv_n v) (sv_ents v) /\
   (0 <= svd_length d -> Forall (fun k => 0 <= k) (svd_index d) -> wf_sv v).
 Proof.
-  unfold read_sv. intros H. apply bind_ok in H as (vals & _ & H).
+  unfold read_sv_core. intros H. apply bind_ok in H as (vals & _ & H).
   destruct (negb (zlen (svd_index d) =? zlen vals)); [discriminate|].
   apply new_sparse_safe in H as (Hn & Hs & Hlt & Hnn).
   split; [assumption|]. split; [assumption|]. split; [rewrite Hn; assumption|].
   intros H0 Hidx. unfold wf_sv. rewrite Hn. split; [assumption|]. split; [assumption|].
   specialize (Hnn Hidx). apply Forall_forall. intros kv Hin.
   eapply Forall_forall in Hlt; [|eassumption]. eapply Forall_forall in Hnn; [|eassumption]. lia.
+Qed.
+
+(* ---------------------------------------------------------------- the reader's own validation *)
+Lemma existsb_eqb_false k (l : list Z) : existsb (Z.eqb k) l = false <-> ~ In k l.
+Proof.
+  split.
+  - intros H Hin. assert (existsb (Z.eqb k) l = true) by (apply existsb_exists; exists k; split; [assumption|apply Z.eqb_refl]). congruence.
+  - intros H. destruct (existsb (Z.eqb k) l) eqn:E; [|reflexivity].
+    apply existsb_exists in E as (x & Hin & Hx). apply Z.eqb_eq in Hx. subst. contradiction.
+Qed.
+
+Lemma idx_ok_spec n : forall idx seen,
+  idx_ok n seen idx = true <->
+  (Forall (fun k => 0 <= k < n) idx /\ NoDup idx /\ forall k, In k idx -> ~ In k seen).
+Proof.
+  induction idx as [|k idx IH]; intros seen; simpl.
+  - split; [intros _; repeat split; [constructor|constructor|intros k []]|reflexivity].
+  - destruct ((k <? 0) || (k >=? n)) eqn:Er; simpl.
+    + split; [discriminate|]. intros (HF & _). inversion HF; subst. lia.
+    + destruct (existsb (Z.eqb k) seen) eqn:Es.
+      * split; [discriminate|]. intros (_ & _ & Hs). exfalso.
+        apply (Hs k (or_introl eq_refl)). apply existsb_exists in Es as (x & Hin & Hx). apply Z.eqb_eq in Hx. subst. assumption.
+      * apply existsb_eqb_false in Es. rewrite IH. split.
+        -- intros (HF & Hnd & Hs). split; [constructor; [lia|assumption]|]. split.
+           ++ constructor; [|assumption]. intros Hin. apply (Hs k Hin). left; reflexivity.
+           ++ intros q [->|Hq]; [assumption|]. intros Hq'. apply (Hs q Hq). right; assumption.
+        -- intros (HF & Hnd & Hs). inversion HF; subst. inversion Hnd; subst. split; [assumption|]. split; [assumption|].
+           intros q Hq [->|Hq']; [contradiction|]. apply (Hs q (or_intror Hq)). assumption.
+Qed.
+
+Lemma idx_ok_nil n idx : idx_ok n [] idx = true <-> (Forall (fun k => 0 <= k < n) idx /\ NoDup idx).
+Proof.
+  rewrite idx_ok_spec. split; [intros (A & B & _); auto|intros (A & B); repeat split; auto].
+Qed.
+
+(* the validated reader = the checks, then the unvalidated core *)
+Lemma read_sv_ok d v :
+  read_sv F T nz parseJ d = Ok v <->
+  (read_sv_core F T nz parseJ d = Ok v /\ 0 <= svd_length d /\ idx_ok (svd_length d) [] (svd_index d) = true).
+Proof.
+  unfold read_sv, read_sv_core.
+  destruct (parse_list F T parseJ (svd_value d)) as [vals| | |]; simpl; try (split; [discriminate|intros (C & _); discriminate]).
+  destruct (negb (zlen (svd_index d) =? zlen vals)); [split; [discriminate|intros (C & _); discriminate]|].
+  destruct (svd_length d <? 0) eqn:El; [split; [discriminate|intros (_ & C & _); lia]|].
+  destruct (idx_ok (svd_length d) [] (svd_index d)); simpl.
+  - split; [intros H; repeat split; [assumption|lia]|intros (H & _); assumption].
+  - split; [discriminate|intros (_ & _ & C); discriminate].
+Qed.
+
+(* reader safety at full strength: whatever document the reader accepts, the vector is well-formed *)
+Lemma read_sv_safe d v : read_sv F T nz parseJ d = Ok v -> wf_sv v /\ sv_n v = svd_length d.
+Proof.
+  intros H. apply read_sv_ok in H as (Hc & Hn & Hi). apply idx_ok_nil in Hi as [HF _].
+  apply read_sv_core_safe in Hc as (Hlen & _ & _ & Hwf). split; [|assumption].
+  apply Hwf; [assumption|]. eapply Forall_impl; [|exact HF]. simpl. intros; lia.
+Qed.
+
+(* ... and no document makes it panic: the constructor's panics are unreachable behind the checks *)
+Lemma read_sv_total d : read_sv F T nz parseJ d <> Panic /\ read_sv F T nz parseJ d <> Crash.
+Proof.
+  unfold read_sv.
+  destruct (parse_list F T parseJ (svd_value d)) as [vals| | |] eqn:Ep; simpl; try (split; discriminate);
+    try (unfold parse_list in Ep; destruct (mapM parseJ _); discriminate).
+  destruct (zlen (svd_index d) =? zlen vals) eqn:El; simpl; [|split; discriminate].
+  destruct (svd_length d <? 0); [split; discriminate|].
+  destruct (idx_ok (svd_length d) [] (svd_index d)) eqn:Ei; simpl; [|split; discriminate].
+  apply idx_ok_nil in Ei as [HF Hnd]. apply Z.eqb_eq in El.
+  destruct (nsg_ok (svd_length d) (svd_index d) vals []) as (ents & He & _).
+  { unfold zlen in El. lia. } { assumption. }
+  { intros k Hin. split; [|reflexivity]. eapply Forall_forall in HF; [|eassumption]. simpl in HF. lia. }
+  unfold new_sparse. replace (zlen (svd_index d) =? zlen vals) with true by (symmetry; apply Z.eqb_eq; assumption).
+  simpl. rewrite He. simpl. split; discriminate.
 Qed.
 
 (* ---------------------------------------------------------------- round trip *)
@@ -163,19 +236,38 @@ Proof.
     + destruct (nz (eval e)) eqn:Ez; [left; reflexivity|right; split; assumption].
 Qed.
 
-Lemma sv_roundtrip (v : svec E) d :
+Lemma sv_core_roundtrip (v : svec E) d :
   wf_sv v -> write_sv F T fmtJ E eval enul v = Ok d ->
-  exists v', read_sv F T nz parseJ d = Ok v' /\ wf_sv v' /\ sv_obs_eq F zero nz E eval v v'.
+  exists v', read_sv_core F T nz parseJ d = Ok v' /\ wf_sv v' /\ sv_obs_eq F zero nz E eval v v'.
 Proof.
   intros Hwf Hw. unfold write_sv in Hw. apply bind_ok in Hw as (ts & Hts & Hw). inversion Hw; subst d; clear Hw.
   destruct (sparse_core v ts (sv_n v) Hwf ltac:(lia) Hts) as (vals & Hp & Hlen & v' & Hv' & Hn' & Hs' & Hr' & Hobs).
-  unfold read_sv; simpl. rewrite Hp; simpl.
+  unfold read_sv_core; simpl. rewrite Hp; simpl.
   replace (zlen (map fst (live v)) =? zlen vals) with true by (symmetry; apply Z.eqb_eq; assumption).
   simpl. exists v'. split; [assumption|]. destruct Hwf as (Hn & _).
   split; [unfold wf_sv; rewrite Hn'; auto|].
   split; [assumption|]. intros k Hk. unfold sv_at. rewrite Hn'.
   replace ((k <? 0) || (k >=? sv_n v)) with false by lia.
   specialize (Hobs k). destruct (lookup k (sv_ents v')); eauto.
+Qed.
+
+(* the writer's document passes the reader's validation *)
+Lemma live_idx_ok (v : svec E) n' : wf_sv v -> sv_n v <= n' -> idx_ok n' [] (map fst (live v)) = true.
+Proof.
+  intros (Hn & Hs & Hr) Hle. apply idx_ok_nil. split.
+  - apply Forall_forall. intros k Hin. apply in_map_iff in Hin as (kv & <- & Hin).
+    apply filter_In in Hin as [Hin _]. eapply Forall_forall in Hr; [|eassumption]. simpl in Hr. lia.
+  - apply (sorted_NoDup (sv_live E enul v)). apply sorted_filter. assumption.
+Qed.
+
+Lemma sv_roundtrip (v : svec E) d :
+  wf_sv v -> write_sv F T fmtJ E eval enul v = Ok d ->
+  exists v', read_sv F T nz parseJ d = Ok v' /\ wf_sv v' /\ sv_obs_eq F zero nz E eval v v'.
+Proof.
+  intros Hwf Hw. destruct (sv_core_roundtrip v d Hwf Hw) as (v' & Hr & Hwf' & Hobs).
+  exists v'. split; [|split; assumption]. apply read_sv_ok. split; [assumption|].
+  unfold write_sv in Hw. apply bind_ok in Hw as (ts & _ & Hw). inversion Hw; subst d; simpl.
+  split; [destruct Hwf; assumption|]. apply live_idx_ok; [assumption|lia].
 Qed.
 
 Lemma zeq_nz a b : zeq a b -> nz a = nz b.
@@ -190,25 +282,15 @@ Qed.
 End RoundTrip.
 End Sparse.
 
-(* ---------------------------------------------------------------- refutations (integer instance) *)
+(* ---------------------------------------------------------------- regression examples (integer instance) *)
 Definition Zrsv := read_sv Z Z Znz Zparse.
 
-(* the smallest malformed documents *)
-Lemma sparse_reader_panics_refuted :
-  Zrsv (mkSvDoc [1] [1] 1) = Panic /\            (* index >= dimension *)
-  Zrsv (mkSvDoc [0; 0] [1; 1] 1) = Panic /\      (* repeated index *)
-  (exists v, Zrsv (mkSvDoc [0; 0] [0; 1] 1) = Ok v).   (* repeated index behind a zero: accepted *)
-Proof. split; [reflexivity|]. split; [reflexivity|]. eexists; reflexivity. Qed.
-
-Lemma sparse_reader_negidx_refuted :
-  exists d v, Zrsv d = Ok v /\ ~ wf_sv v /\ lookup (-1) (sv_ents v) = Some 1.
-Proof.
-  exists (mkSvDoc [-1] [1] 1). eexists. split; [reflexivity|]. split; [|reflexivity].
-  intros (_ & _ & H). simpl in H. inversion H; subst. simpl in *. lia.
-Qed.
-
-Lemma sparse_reader_neglen_refuted :
-  exists d v, Zrsv d = Ok v /\ ~ wf_sv v.
-Proof.
-  exists (mkSvDoc [] [] (-1)). eexists. split; [reflexivity|]. intros (H & _). simpl in H. lia.
-Qed.
+(* the smallest malformed documents (witnesses of the retired F-JSON-SPARSE-PANIC / F-JSON-NEGIDX): all errors now *)
+Lemma sparse_reader_regression :
+  Zrsv (mkSvDoc [1] [1] 1) = Err /\            (* index >= dimension: was a panic *)
+  Zrsv (mkSvDoc [0; 0] [1; 1] 1) = Err /\      (* repeated index: was a panic *)
+  Zrsv (mkSvDoc [0; 0] [0; 1] 1) = Err /\      (* repeated index behind a zero: was accepted *)
+  Zrsv (mkSvDoc [-1] [1] 1) = Err /\           (* negative index: was accepted *)
+  Zrsv (mkSvDoc [] [] (-1)) = Err /\           (* negative length: was accepted *)
+  Zrsv (mkSvDoc [2; 0] [5; 0] 3) = Ok (mkSv [(2, 5)] 3).
+Proof. repeat split; reflexivity. Qed.
